@@ -258,6 +258,26 @@ pub fn run(seed: u64, thorough: bool, out_dir: &std::path::Path, scratch: &std::
                         if Some(snap.epoch_ext().clone()) != want {
                             viol.push(json!({"what": format!("after a {}: the snapshot's epoch is not the epoch of the main chain's tip", c.what), "detail": {"history": h.jops}}));
                         }
+                        // the epoch-by-number index (get_epoch_by_number, the freezer's threshold): epoch n of the
+                        // MAIN chain for every n up to the tip's epoch, no row above it
+                        {
+                            let tip_epoch = tip.epoch().number();
+                            for e in 0..=tip_epoch + 2 {
+                                let got = st.get_epoch_index(e).and_then(|i| st.get_epoch_ext(&i));
+                                let head = main.iter().find(|b| b.epoch().number() == e && b.epoch().index() == 0);
+                                let want = head.and_then(|b| st.get_block_epoch_index(&b.hash())).and_then(|i| st.get_epoch_ext(&i));
+                                if e <= tip_epoch {
+                                    if got.is_none() || got != want {
+                                        viol.push(json!({"what": format!("after a {}: the epoch-by-number index row of epoch {e} does not designate the main chain's epoch {e}", c.what),
+                                            "detail": {"history": h.jops, "indexed_epoch_start": got.as_ref().map(|x| x.start_number()), "indexed_last_hash_of_previous_epoch_on_main_chain": got.as_ref().map(|x| snap.get_block_number(&x.last_block_hash_in_previous_epoch()).is_some()), "main_chain_epoch_start": want.as_ref().map(|x| x.start_number())}}));
+                                        break;
+                                    }
+                                } else if got.is_some() {
+                                    viol.push(json!({"what": format!("after a {}: the epoch-by-number index has a row for epoch {e}, above the tip's epoch {tip_epoch}", c.what), "detail": {"history": h.jops}}));
+                                    break;
+                                }
+                            }
+                        }
                         // the epoch record of every block that opens an epoch is what the difficulty adjustment gives
                         // for the finished epoch's true statistics
                         {
